@@ -20,22 +20,18 @@ Open Scope Z_scope.
 (* ------------------------------------------------------------ fit_to_range *)
 Definition NA : pyval := excelutil.c_NA_ERROR.
 
-(* one row of width [cols] fitted to the target width [w] *)
-Definition fit_cols (w cols : Z) (row : list pyval) : list pyval :=
-  if (cols =? 1) && negb (w =? 1) then seq_mul row w
-  else if w <? cols then firstn (Z.to_nat w) row
-  else if cols <? w then row ++ seq_mul [NA] (w - cols)
-  else row.
-
-(* [nrows] rows (already of width w) fitted to the target height [h] *)
-Definition fit_rows (h w nrows : Z) (rows : list (list pyval)) : list (list pyval) :=
-  if (nrows =? 1) && negb (h =? 1) then seq_mul rows h
-  else if h <? nrows then firstn (Z.to_nat h) rows
-  else if nrows <? h then rows ++ seq_mul [seq_mul [NA] w] (h - nrows)
-  else rows.
+(* one axis: a list of length [len] fitted to the target length [n] —
+   a single element is repeated, a longer list is trimmed, a shorter one is
+   filled.  Both axes of fit_to_range have this form. *)
+Definition fit_axis {A} (n len : Z) (fill : A) (l : list A) : list A :=
+  if (len =? 1) && negb (n =? 1) then seq_mul l n
+  else if n <? len then firstn (Z.to_nat n) l
+  else if len <? n then l ++ seq_mul [fill] (n - len)
+  else l.
 
 Definition fit_spec (h w : Z) (rows : list (list pyval)) : list (list pyval) :=
-  fit_rows h w (zlen rows) (map (fit_cols w (zlen (hd [] rows))) rows).
+  fit_axis h (zlen rows) (seq_mul [NA] w)
+           (map (fit_axis w (zlen (hd [] rows)) NA) rows).
 
 Definition matrix (rows : list (list pyval)) : pyval := VTuple (map VTuple rows).
 
